@@ -54,6 +54,9 @@ class DataPoint(object):
     def get_measurements(self):
         return self._measurements
 
+    def get_iteration(self):
+        return self._total.iteration if self._total else None
+
     def get_total_value(self):
         return self._total.value if self._total else None
 
